@@ -128,6 +128,10 @@ def add_requests(rng, cfg, tier):
         add(dict(NOREQ, lv=[1, L - 1]), kind="level", form="lt", k=L)
         add(dict(NOREQ, lv=[2, L]), kind="level", form="between", a=1, b=L + 1)
         add(dict(NOREQ, lv=[2, 2]), kind="level", form="eq", k=2)
+    if L >= 3:
+        # predicates with a gap: the tree is truncated at the highest accepted level, the rejected level in between is left out
+        add(dict(NOREQ, lv=[1, L, L - 1]), kind="level", form="ne", k=L - 1)
+        add(dict(NOREQ, lv=[1, 3, 2]), kind="level", form="gap", a=1, b=3)
     # value predicate on the first hydro variable (tokens are distinct, pick a median threshold)
     toks = sorted(((o + 1) * 8 + ind) * 16 + 1 for o in range(len(c["octs"])) for ind in range(2 ** c["ndim"]))
     thr = toks[len(toks) // 2]
@@ -182,11 +186,20 @@ def add_requests(rng, cfg, tier):
         calls.append({"req": 1, "kind": "vars", "group": "mesh", "vars": rng.sample(names, k)})
     calls.append({"req": 1, "kind": "vars", "group": "mesh", "vars": [n for n in names if not n.endswith("_x")]})       # partial components
     calls.append({"req": 1, "kind": "vars", "group": "mesh", "vars": [n for n in c["hydro"][:2]]})                      # no amr variable at all
+    # exactly the components of one vector and nothing else; and nothing at all
+    calls.append({"req": 1, "kind": "vars", "group": "mesh", "vars": [f"position_{x}" for x in "xyz"[:c["ndim"]]]})
+    vel = [n for n in c["hydro"] if n.startswith("velocity_") or n.startswith("momentum_")]
+    if vel:
+        calls.append({"req": 1, "kind": "vars", "group": "mesh", "vars": vel})
+    calls.append({"req": 1, "kind": "vars", "group": "mesh", "vars": []})
     if c["haspart"]:
         pn = [d[0] for d in c["part"]["desc"]]
         for _ in range(2):
             calls.append({"req": 1, "kind": "vars", "group": "part", "vars": rng.sample(pn, rng.randint(1, len(pn)))})
         calls.append({"req": 1, "kind": "vars", "group": "part", "vars": pn[1:]})                                        # first column skipped
+        ppos = [n for n in pn if n.startswith("position_")]
+        if ppos:
+            calls.append({"req": 1, "kind": "vars", "group": "part", "vars": ppos})
         scal = [n for n, t in c["part"]["desc"] if t != "b" and (c["ndim"] == 1 or n[-2:] not in ("_x", "_y", "_z"))]
         if scal:
             calls.append({"req": 1, "kind": "sort", "group": "part", "key": rng.choice(scal)})
